@@ -474,6 +474,9 @@ class Engine:
                 if isinstance(init, types.FunctionType):
                     self.call_fn(init, [o] + list(args), kwargs)
                 return o
+            if issubclass(f, BaseException) and (has_sym(args) or has_sym(kwargs)):
+                # exception objects only carry messages: symbolic parts of the message are not modelled
+                return self.native(f, ['<symbolic>' if has_sym(a) else a for a in args], {})
             if has_sym(args) or has_sym(kwargs) or f is bytearray:
                 return self.builtin(f, args, kwargs)
             return self.native(f, args, kwargs)
